@@ -340,6 +340,14 @@ def main_wrapper(fn):
     except NotAVerdict as e:
         log("NOT-A-VERDICT: %s" % e)
         sys.exit(2)
+    except SystemExit:
+        raise
+    except BaseException:
+        # a crash of the machinery is never a verdict (exit 1 is reserved for VIOLATION lines)
+        import traceback
+        traceback.print_exc()
+        log("NOT-A-VERDICT: the check itself failed (see the traceback above)")
+        sys.exit(2)
     sys.exit(rc)
 
 
